@@ -153,9 +153,8 @@ class MetaData:
                           "'r+'")
         metadata = self._read()
         metadata.update(*arg, **kwargs)
-
-        write_jsonfile(self.path, data=metadata, sort_keys=True,
-                       ensure_ascii=True, overwrite=True)
         if metadata:
+            write_jsonfile(self.path, data=metadata, sort_keys=True,
+                           ensure_ascii=True, overwrite=True)
             self._callatfilecreationordeletion()
 
